@@ -429,8 +429,7 @@ func (m *Machine) initPackage(pkg *ssa.Package) {
 		return
 	}
 	// run the initializer; nested package initializers are skipped (they run lazily)
-	savedAtomic := m.cur.atomicDepth
-	m.cur.atomicDepth++ // no scheduling inside init
+	m.cur.atomicExplicit++ // no scheduling inside init
 	m.initStack = append(m.initStack, pkg)
 	saveSteps := m.maxSteps
 	m.maxSteps = m.steps + 5_000_000
@@ -447,7 +446,7 @@ func (m *Machine) initPackage(pkg *ssa.Package) {
 	}()
 	m.maxSteps = saveSteps
 	m.initStack = m.initStack[:len(m.initStack)-1]
-	m.cur.atomicDepth = savedAtomic
+	m.cur.atomicExplicit--
 }
 
 // packages whose init is not executed (globals stay zero); functions touching them must be modelled.
